@@ -399,8 +399,73 @@ func definitelyNonNil(v ssa.Value) bool {
 		return x.Value != nil
 	case *ssa.Slice:
 		return definitelyNonNil(x.X)
+	case *ssa.Call:
+		if fn := x.Call.StaticCallee(); fn != nil && fn.Signature.Results().Len() == 1 {
+			return neverReturnsNil(fn, 0)
+		}
 	}
 	return false
+}
+
+var neverNilMemo = map[*ssa.Function]int{}
+
+// neverReturnsNil: every return of the single-result function is a freshly
+// allocated / boxed value (fmt.Errorf, errors.New, ConfigErrorFromString, ...).
+func neverReturnsNil(fn *ssa.Function, depth int) bool {
+	if v, ok := neverNilMemo[fn]; ok {
+		return v == 1
+	}
+	neverNilMemo[fn] = 0
+	if len(fn.Blocks) == 0 || depth > 3 || !pointerLikeOrNilable(fn.Signature.Results().At(0).Type()) {
+		return false
+	}
+	var ok func(v ssa.Value, d int) bool
+	seen := map[ssa.Value]bool{}
+	ok = func(v ssa.Value, d int) bool {
+		if d > 8 {
+			return false
+		}
+		if seen[v] {
+			return true
+		}
+		seen[v] = true
+		switch x := v.(type) {
+		case *ssa.Alloc, *ssa.MakeInterface, *ssa.MakeSlice, *ssa.MakeMap, *ssa.MakeClosure, *ssa.FieldAddr, *ssa.Function:
+			return true
+		case *ssa.Const:
+			return x.Value != nil
+		case *ssa.Phi:
+			for _, e := range x.Edges {
+				if !ok(e, d+1) {
+					return false
+				}
+			}
+			return true
+		case *ssa.ChangeInterface:
+			return ok(x.X, d+1)
+		case *ssa.ChangeType:
+			return ok(x.X, d+1)
+		case *ssa.Call:
+			if g := x.Call.StaticCallee(); g != nil && g.Signature.Results().Len() == 1 {
+				return neverReturnsNil(g, depth+1)
+			}
+		}
+		return false
+	}
+	n := 0
+	for _, b := range fn.Blocks {
+		if ret, isRet := b.Instrs[len(b.Instrs)-1].(*ssa.Return); isRet {
+			n++
+			if len(ret.Results) != 1 || !ok(ret.Results[0], 0) {
+				return false
+			}
+		}
+	}
+	if n == 0 {
+		return false
+	}
+	neverNilMemo[fn] = 1
+	return true
 }
 
 func isNilConst(v ssa.Value) bool {
